@@ -224,9 +224,64 @@ Definition annotate_cost (cp : comm -> Z) (p : post) : post :=
 
 Record txn : Type := mkTxn { t_payee : str; t_state : pstate; t_posts : list post }.
 
+(* ---- account names.  Postings and rule lines reach the model with the FULL account name they
+   resolve to at their place in the file: master account (--master-account), the enclosing
+   `apply account` names, one step of alias expansion (journal_t::register_account called by
+   parse_post with top_account(); textual.cc automated_xact_directive passes the same root for
+   the lines of a rule: Gen/AutoXactRoot.v).  The harness computes those names.
+   What the model does itself: extend_xact registers the rule line's account AGAIN, by its full
+   name, from the journal's root (xact.cc `journal->register_account(account->fullname(),
+   new_post, journal->master)`), which runs one more step of alias expansion with the aliases in
+   force when the TRANSACTION is read (journal.cc expand_aliases, recursive_aliases off). *)
+Definition aliases := list (str * str).      (* alias name -> full name of its target *)
+
+Fixpoint alias_find (n : str) (al : aliases) : option str :=
+  match al with
+  | [] => None
+  | (k, t) :: al' => if str_eqb k n then Some t else alias_find n al'
+  end.
+
+(* account_alias_directive: insert, or replace the target of an existing alias *)
+Fixpoint alias_set (n t : str) (al : aliases) : aliases :=
+  match al with
+  | [] => [(n, t)]
+  | (k, v) :: al' => if str_eqb k n then (k, t) :: al' else (k, v) :: alias_set n t al'
+  end.
+
+(* the text before the first `:` and the rest (starting with the colon) *)
+Fixpoint split_colon (s : str) : option (str * str) :=
+  match s with
+  | [] => None
+  | c :: s' => if c =? 58 then Some ([], s)
+               else match split_colon s' with
+                    | Some (a, b) => Some (c :: a, b)
+                    | None => None
+                    end
+  end.
+
+(* expand_aliases, one round: the whole name, else its first component *)
+Definition realias (al : aliases) (full : str) : str :=
+  match alias_find full al with
+  | Some t => t
+  | None => match split_colon full with
+            | Some (first, rest) => match alias_find first al with
+                                    | Some t => t ++ rest
+                                    | None => full
+                                    end
+            | None => full
+            end
+  end.
+
+Definition realias_line (al : aliases) (l : rule_line) : rule_line :=
+  mkLine (realias al (rl_acct l)) (rl_kind l) (rl_amt l) (rl_state l).
+
+Definition realias_rule (al : aliases) (r : rule) : rule :=
+  mkRule (r_pred r) (map (realias_line al) (r_lines r)).
+
 Inductive directive : Type :=
 | DRule (r : rule)
-| DTxn (t : txn).
+| DTxn (t : txn)
+| DAlias (n t : str).       (* alias N=TARGET, the target by its full name *)
 
 Inductive xoutcome : Type :=
 | XAccepted (ps : list xpost)
@@ -244,21 +299,23 @@ Definition learn_rule (pl : pool) (r : rule) : pool :=
 
 Definition lift (st : pstate) (ps : list post) : list xpost := map (fun p => mkX p st) ps.
 
-Fixpoint process (ord : bool) (pl : pool) (rules : list (rule * rstate)) (ds : list directive)
+Fixpoint process (ord : bool) (pl : pool) (al : aliases) (rules : list (rule * rstate)) (ds : list directive)
   : list (res xoutcome) :=
   match ds with
   | [] => []
-  | DRule r :: ds' => process ord (learn_rule pl r) (rules ++ [(r, rs_init)]) ds'
+  | DRule r :: ds' => process ord (learn_rule pl r) al (rules ++ [(r, rs_init)]) ds'
+  | DAlias n t :: ds' => process ord pl (alias_set n t al) rules ds'
   | DTxn t :: ds' =>
       let pl' := learn_posts pl (t_posts t) in
       let cp := cp_of pl' in
       match finalize ord cp None (t_posts t) with
       | Ok (Accepted ps) =>
           let (out, rules') :=
-            extend_all ord cp rules (t_payee t) (t_state t)
+            extend_all ord cp (map (fun rr => (realias_rule al (fst rr), snd rr)) rules) (t_payee t) (t_state t)
                        (lift (t_state t) (map (annotate_cost cp) ps)) in
-          (do xs <- out; Ok (XAccepted xs)) :: process ord pl' rules' ds'
-      | Ok Ignored => Ok XIgnored :: process ord pl' rules ds'
-      | Err e => Err e :: process ord pl' rules ds'
+          (do xs <- out; Ok (XAccepted xs))
+            :: process ord pl' al (combine (map fst rules) (map snd rules')) ds'
+      | Ok Ignored => Ok XIgnored :: process ord pl' al rules ds'
+      | Err e => Err e :: process ord pl' al rules ds'
       end
   end.
